@@ -129,20 +129,22 @@ def propagate_positive(cx, N):
 
 
 @harness("C17", "propagation_matrix",
-         quick=[dict(N=2, sub=(0.0, 3, 2.0)), dict(N=2, sub=(2.0, 2, 2.0)), dict(N=2, sub=(3.0, 2, 2.0))],
+         quick=[dict(N=2, sub=(0.0, 3, 2.0)), dict(N=2, sub=(2.0, 2, 2.0)), dict(N=2, sub=(3.0, 2, 2.0)),
+                dict(N=2, sub=(8.0, 2, 2.0), t0=5.0), dict(N=2, sub=(9.0, 2, 2.0), t0=5.0)],
          thorough=[dict(N=2, sub=s) for s in ((0.0, 3, 2.0), (2.0, 2, 2.0), (3.0, 2, 2.0), (4.0, 3, 1.0),
-                                               (1.0, 3, 3.0))],
+                                               (1.0, 3, 3.0))] +
+                  [dict(N=2, sub=s, t0=5.0) for s in ((5.0, 3, 2.0), (8.0, 2, 2.0), (9.0, 2, 2.0), (7.0, 3, 1.0))],
          functions=[F_PP + ":PopulationPropagator.get_PropagationMatrix", F_VA + ":ValueAxis.is_subset_of"],
-         bound="N=2; propagator axis 0..9 step 1; sub-axes (start,length,step) aligned, shifted by whole sub-steps "
+         bound="N=2; propagator axis 0..9 step 1 (t0: starting at t0=5 instead); sub-axes (start,length,step) aligned, shifted by whole sub-steps "
                "and shifted by a fraction of a sub-step; K arbitrary real with a real eigen-decomposition "
                "K S = S diag(lambda), det S != 0 (eig stub), Exp uninterpreted with its functional equation "
                "instantiated for the arguments that occur",
          out="the numerical value of exp; defective or complex-spectrum K; perturbative corrections")
-def propagation_matrix(cx, N, sub):
+def propagation_matrix(cx, N, sub, t0=0.0):
     from quantarhei import TimeAxis
     from quantarhei.qm.propagators.poppropagator import PopulationPropagator
     with cx.concrete():
-        ta = TimeAxis(0.0, 10, 1.0)
+        ta = TimeAxis(t0, 10, 1.0)
         ts = TimeAxis(*sub)
     lam = cx.real_array("lam", N)
     S = cx.real_array("S", (N, N))
